@@ -834,6 +834,10 @@ func (s *Sim) checkMidTurnStop() {
 
 func (s *Sim) shutdownStuck(what string) {
 	dump := bubbleDump()
+	if s.cfg.Profile == "C18" && s.oracleOn("C18") {
+		// the progress probe was answered, yet the event loop is blocked for good now
+		s.violate("C18", "progress", "wedge:"+wedgeSignature(dump), "%s: the event loop no longer makes progress; goroutines:\n%s", what, dump)
+	}
 	s.violate("C17", "stop.terminates", "stuck:"+stuckSignature(dump), "%s\n%s", what, dump)
 }
 
